@@ -10,6 +10,9 @@ import (
 // installHooks points go-header's verif-tagged scheduling points at the
 // simulator of the current run (or detaches them).
 func installHooks(s *core.Sim, on bool) {
+	if s == nil {
+		store.SimSetDeleteParallelThreshold(10000)
+	}
 	if s == nil || !on {
 		store.SimHook.Yield = nil
 		hsync.SimHook.Yield, hsync.SimHook.Acquire, hsync.SimHook.Release = nil, nil, nil
